@@ -75,10 +75,44 @@ def seam():
     return _seam
 
 
+class _Hang(Exception):
+    pass
+
+
+def _on_alarm(signum, frame):
+    raise _Hang()
+
+
+_guarded = False
+
+
+def _guard():
+    """A wrong evaluation order can turn a small expression into an astronomically large integer; cap the
+    worker's address space and the time per evaluation so that this is reported, not suffered."""
+    global _guarded
+    if _guarded:
+        return
+    _guarded = True
+    import resource
+    import signal
+    soft, hard = resource.getrlimit(resource.RLIMIT_AS)
+    cap = 3 << 30
+    if soft == resource.RLIM_INFINITY or soft > cap:
+        resource.setrlimit(resource.RLIMIT_AS, (cap, hard))
+    signal.signal(signal.SIGALRM, _on_alarm)
+
+
 def eval_real(text):
+    import signal
     parse_expression, scope, lid = seam()
+    _guard()
+    signal.setitimer(signal.ITIMER_REAL, 20)
     try:
         return ('OK', parse_expression(lid, text).get_value(scope, lid))
+    except _Hang:
+        return ('HANG', 'no answer within 20 s')
+    except MemoryError:
+        return ('REJECT', 'MemoryError')
     except SystemExit as e:
         if e.code in (None, 0):
             return ('OK', None)
@@ -87,6 +121,8 @@ def eval_real(text):
         return ('REJECT', 'RecursionError')
     except Exception as e:
         return ('REJECT', type(e).__name__)
+    finally:
+        signal.setitimer(signal.ITIMER_REAL, 0)
 
 
 def atom_tree(a, j):
